@@ -603,5 +603,22 @@ fn round(
     _: &mut model::Context,
 ) -> error::Result<model::Value> {
     let arg = f64::try_from(args.first().unwrap())?;
-    Ok(model::Value::Number(arg.round()))
+    Ok(model::Value::Number(round_number(arg)))
+}
+
+/// Closest integer, the one closer to positive infinity if there are two; NaN, the infinities
+/// and the zeros are returned as they are, and -0.5 <= n < 0 gives negative zero.
+fn round_number(n: f64) -> f64 {
+    if n.is_nan() || n.is_infinite() || n == 0f64 {
+        n
+    } else if (-0.5..0f64).contains(&n) {
+        -0f64
+    } else {
+        let floor = n.floor();
+        if n - floor >= 0.5 {
+            floor + 1f64
+        } else {
+            floor
+        }
+    }
 }
